@@ -181,20 +181,14 @@ func c29peers(thorough bool) []*c29peer {
 			&c29peer{name: "mapped-10.0.0.9", ip: c29v16("10.0.0.9"), port: 40000, fam: "v4in6"},
 			&c29peer{name: "2001:db8::f", ip: c29v16("2001:db8::f"), port: 40000, fam: "v6"},
 			&c29peer{name: "10.0.0.6", ip: c29v4("10.0.0.6"), port: 40000, fam: "v4"},
-			&c29peer{name: "10.0.0.7", ip: c29v4("10.0.0.7"), port: 40000, fam: "v4"},
 			&c29peer{name: "10.0.1.0", ip: c29v4("10.0.1.0"), port: 40000, fam: "v4"},
-			&c29peer{name: "10.0.0.255", ip: c29v4("10.0.0.255"), port: 40000, fam: "v4"},
 			&c29peer{name: "192.168.1.1", ip: c29v4("192.168.1.1"), port: 40000, fam: "v4"},
 			&c29peer{name: "0.0.0.0", ip: c29v4("0.0.0.0"), port: 40000, fam: "v4"},
-			&c29peer{name: "255.255.255.255", ip: c29v4("255.255.255.255"), port: 40000, fam: "v4"},
 			&c29peer{name: "7.7.7.7", ip: c29v4("7.7.7.7"), port: 4321, fam: "v4"},
 			&c29peer{name: "mapped-6.6.6.6", ip: c29v16("6.6.6.6"), port: 40000, fam: "v4in6"},
 			&c29peer{name: "::1", ip: c29v16("::1"), port: 40000, fam: "v6"},
-			&c29peer{name: "::", ip: c29v16("::"), port: 40000, fam: "v6"},
 			&c29peer{name: "2001:db8::6", ip: c29v16("2001:db8::6"), port: 40000, fam: "v6"},
 			&c29peer{name: "2001:db8::10", ip: c29v16("2001:db8::10"), port: 40000, fam: "v6"},
-			&c29peer{name: "2001:db8::1f", ip: c29v16("2001:db8::1f"), port: 40000, fam: "v6"},
-			&c29peer{name: "fe80::2%eth0", ip: c29v16("fe80::2"), zone: "eth0", port: 40000, fam: "v6zone"},
 		)
 	}
 	return ps
@@ -284,9 +278,8 @@ func c29extra(thorough bool) []*c29sym {
 		{name: "conn-nominates", lines: []string{"Connection: X-Real-Ip, X-Real-Port, X-Forwarded-For, keep-alive", "Keep-Alive: timeout=5"}},
 	}
 	if thorough {
-		s = append(s,
-			&c29sym{name: "hop-copy", lines: []string{"Proxy-Authorization: x", "Te: gzip", "Upgrade: foo"}},
-		)
+		// hop-by-hop fields that nominate nothing: the header-copy path without the nomination
+		s = append(s, &c29sym{name: "hop-plain", lines: []string{"Connection: keep-alive", "Keep-Alive: timeout=5", "Proxy-Authorization: x", "Te: gzip"}})
 	}
 	return s
 }
